@@ -57,6 +57,25 @@ func DecodeUnknownObject(data []byte, expectNextTypes ...reflect.Type) (Object, 
 	return obj, nil
 }
 
+// DecodeNestedUnknownObject decodes an object which is serialized inside a field of the object d is decoding
+// right now (gzip_packed content, for example). Nested object is parsed with predictions of d (see
+// Decoder.ExpectTypesInInterface), predictions used by nested object are dropped from d.
+func (d *Decoder) DecodeNestedUnknownObject(data []byte) (Object, error) {
+	nested, err := NewDecoder(bytes.NewReader(data))
+	if err != nil {
+		return nil, err
+	}
+	nested.expectedTypes = d.expectedTypes
+
+	obj := nested.decodeRegisteredObject()
+	if nested.err != nil {
+		return nil, errors.Wrap(nested.err, "decoding predicted object")
+	}
+	d.expectedTypes = nested.expectedTypes
+
+	return obj, nil
+}
+
 func (d *Decoder) decodeObject(o Object, ignoreCRC bool) {
 	if d.err != nil {
 		return
